@@ -450,3 +450,28 @@ def call_arg(ana: Analysis, cs, name: str, pos: Optional[int] = None) -> Optiona
     if pos is not None and len(call.args) > pos and not any(isinstance(a, ast.Starred) for a in call.args[:pos + 1]):
         return call.args[pos]
     return None
+
+
+def immutable_constant_expr(e) -> bool:
+    """A literal whose value cannot change after the module is loaded: numbers, strings, None, -1, 2 * 3, tuples of such."""
+    if isinstance(e, ast.Constant):
+        return True
+    if isinstance(e, ast.UnaryOp):
+        return immutable_constant_expr(e.operand)
+    if isinstance(e, ast.BinOp):
+        return immutable_constant_expr(e.left) and immutable_constant_expr(e.right)
+    if isinstance(e, ast.Tuple):
+        return all(immutable_constant_expr(x) for x in e.elts)
+    return False
+
+
+def module_constant(mod, name: str) -> bool:
+    """`name` is bound exactly once at module level, to an immutable literal."""
+    st = mod.globals.get(name)
+    if mod.global_assign_count.get(name, 0) != 1:
+        return False
+    if isinstance(st, ast.Assign):
+        return immutable_constant_expr(st.value)
+    if isinstance(st, ast.AnnAssign) and st.value is not None:
+        return immutable_constant_expr(st.value)
+    return False
